@@ -247,6 +247,11 @@ func (it *Interp) ensureInit(pkg *ssa.Package) {
 		}
 	}
 	initFn := pkg.Func("init")
+	if initFn != nil && initFn.Blocks == nil && !it.skipInit(pkg) {
+		// packages are built lazily; a package whose first use is a read of one of its globals
+		// (e.g. sdkerrors.ErrInsufficientFunds) has no function bodies yet
+		pkg.Build()
+	}
 	if initFn != nil && initFn.Blocks != nil && !it.skipInit(pkg) {
 		saveStack := it.stack
 		saveP := it.P
